@@ -4,8 +4,8 @@ from contracts import message, specs
 
 ID = "C33"
 L = "lemmas.c33."
-TARGETS = [L + "roundtrip_scalars", L + "roundtrip_extended"]
-REPLAY = {"*": "c33.replay_roundtrip"}
+TARGETS = [L + "roundtrip_scalars", L + "roundtrip_extended", L + "decodes_are_independent"]
+REPLAY = {"*": "c33.replay_roundtrip", "decodes_are_independent": "c33.decodes_are_independent"}
 MAX_PATHS = 20000
 
 
@@ -23,12 +23,16 @@ def setup(E):
                params={"size": "opt[u64]", "n": "int[0,3)", "k1": "bytes", "v1": "bytes", "k2": "bytes", "v2": "bytes"},
                requires=["len(k1) < 2**32", "len(v1) < 2**32", "len(k2) < 2**32", "len(v2) < 2**32"],
                raises={})
+    E.contract(L + "decodes_are_independent", params={"size": "opt[u64]", "k1": "bytes", "v1": "bytes"},
+               requires=["len(k1) < 2**32", "len(v1) < 2**32"], raises={})
 
 CLAIMED = True
 LEVEL_TEXT = ("Proof by symbolic execution of the real _pack and _unpack bodies between Message contracts: for every "
               "combination of present/absent size, uid+gid, permissions, times (all values symbolic) the decoded object "
               "has the same fields, absent fields stay None and each flag bit is set exactly for the present field; the "
-              "extended-attribute map round-trips with symbolic names and values.")
+              "extended-attribute map round-trips with symbolic names and values; objects are independent: an attribute set decoded "
+              "(or built) after one carrying extended attributes has none of them and re-encodes none (lemma program with "
+              "two decodes in a row - each object owns its map).")
 LEVEL_NOTE = ("Extended-attribute maps are covered for sizes 0, 1 and 2 only (bounded in the number of entries, unbounded in "
               "their contents); st_atime/st_mtime are taken as integers (int(float) truncation is CPython's); Message "
               "methods are used through their C39 contracts; dict iteration order = insertion order.")
